@@ -188,6 +188,7 @@ func (d *MarchingCanvas) addFloat1Range(section *marchingSection, chunkPos, min,
 	index := d.chunkIndex_atomic(section, chunkPos)
 
 	// Other workers append to the block list while holding the mutex
+	verifYield("canvas:block:lock")
 	d.chunkMutex.Lock()
 	data := d.float1Data[index]
 	d.chunkMutex.Unlock()
